@@ -22,6 +22,117 @@ def _calls(node, attr):
         (isinstance(c.func, ast.Attribute) and c.func.attr == attr) or (isinstance(c.func, ast.Name) and c.func.id == attr))]
 
 
+def _regex_language(pattern: str):
+    """the finite set of strings a (small) pattern matches, or None when it is not finite / not understood"""
+    import re._constants as sc
+
+    def seq(items):
+        outs = {""}
+        for op, av in items:
+            alts = one(op, av)
+            if alts is None:
+                return None
+            outs = {a + b for a in outs for b in alts}
+            if len(outs) > 64:
+                return None
+        return outs
+
+    def one(op, av):
+        if op is sc.LITERAL:
+            return {chr(av)}
+        if op is sc.IN:
+            out = set()
+            for k, v in av:
+                if k is sc.LITERAL:
+                    out.add(chr(v))
+                else:
+                    return None
+            return out
+        if op is sc.BRANCH:
+            out = set()
+            for alt in av[1]:
+                r = seq(list(alt))
+                if r is None:
+                    return None
+                out |= r
+            return out
+        if op is sc.SUBPATTERN:
+            return seq(list(av[3]))
+        if op in (sc.MAX_REPEAT, sc.MIN_REPEAT):
+            lo, hi, items = av
+            if hi > 3:
+                return None
+            base = seq(list(items))
+            if base is None:
+                return None
+            out = set()
+            for k in range(lo, hi + 1):
+                cur = {""}
+                for _ in range(k):
+                    cur = {a + b for a in cur for b in base}
+                out |= cur
+            return out
+        return None
+
+    try:
+        return seq(list(sre_parse.parse(pattern)))
+    except Exception:
+        return None
+
+
+def driver_model(g, cl):
+    """how the line splitter finds terminators and what it carries from chunk to chunk"""
+    chunk = ast.unparse(cl.target)
+    carriers = {}
+    for st in g.node.body[: g.node.body.index(cl)]:
+        if isinstance(st, (ast.Assign, ast.AnnAssign)) and st.value is not None:
+            tg = st.targets[0] if isinstance(st, ast.Assign) else st.target
+            if isinstance(tg, ast.Name):
+                v = ast.unparse(st.value)
+                if v in ("io.StringIO()", "StringIO()"):
+                    carriers[tg.id] = "sio"
+                elif isinstance(st.value, ast.Constant) and st.value.value == "":
+                    carriers[tg.id] = "str"
+    pats = {}
+    for n in ast.walk(g.node):
+        if isinstance(n, ast.Assign) and isinstance(n.value, ast.Call) and ast.unparse(n.value.func) == "re.compile" and n.value.args \
+                and isinstance(n.value.args[0], ast.Constant) and isinstance(n.targets[0], ast.Name):
+            pats[n.targets[0].id] = (n.value.args[0].value, n)
+    recognisers = []
+    for c in ast.walk(g.node):
+        if not (isinstance(c, ast.Call) and isinstance(c.func, ast.Attribute)):
+            continue
+        recv = ast.unparse(c.func.value)
+        if c.func.attr in ("search", "finditer", "split", "match", "findall") and recv in pats and c.args:
+            recognisers.append(("regex", pats[recv][0], c, c.args[0]))
+        elif c.func.attr == "splitlines":
+            recognisers.append(("splitlines", None, c, c.func.value))
+        elif c.func.attr in ("split", "partition", "find", "index") and c.args and isinstance(c.args[0], ast.Constant) and c.args[0].value in ("\n", "\r\n") \
+                and recv not in pats:
+            recognisers.append(("literal", c.args[0].value, c, c.func.value))
+
+    def joined(e):
+        """the scanned text is the carried text followed by the chunk"""
+        names = {n.id for n in ast.walk(e) if isinstance(n, ast.Name)}
+        return chunk in names and any(cn in names for cn in carriers) and isinstance(e, (ast.BinOp, ast.JoinedStr, ast.Call))
+
+    scan = "chunk"
+    for kind, pat, c, scanned in recognisers:
+        sc_ = pyfront.subst_locals(g.node, scanned)
+        if joined(sc_):
+            scan = "joined"
+    updates = []
+    for n in ast.walk(cl):
+        if isinstance(n, ast.Call) and isinstance(n.func, ast.Attribute) and n.func.attr == "write" and ast.unparse(n.func.value) in carriers \
+                and n.args and any(isinstance(x, ast.Name) and x.id == chunk for x in ast.walk(n.args[0])):
+            updates.append(n)
+        if isinstance(n, ast.AugAssign) and isinstance(n.target, ast.Name) and carriers.get(n.target.id) == "str":
+            updates.append(n)
+        if isinstance(n, ast.Assign) and len(n.targets) == 1 and isinstance(n.targets[0], ast.Name) and carriers.get(n.targets[0].id) == "str":
+            updates.append(n)
+    return {"chunk": chunk, "carriers": carriers, "pats": pats, "recognisers": recognisers, "scan": scan, "carry_updates": updates}
+
+
 def rule_driver(ctx, px):
     R = "R-C15-DRIVER"
     ctx.rule(
@@ -62,6 +173,7 @@ def rule_driver(ctx, px):
     inner = [c for c in _calls(cl, "_filter_and_write_line")]
     ctx.ob(R, g.module.rel, f"{g.short} :: completed lines are handed to _filter_and_write_line", len(inner) >= 1,
            "" if inner else "no call inside the chunk loop", cl.lineno)
+    model = driver_model(g, cl)
     after = [st for st in g.node.body[g.node.body.index(cl) + 1:]]
     flush = [c for st in after for c in _calls(st, "_filter_and_write_line")]
     ok = len(flush) >= 1
@@ -69,26 +181,35 @@ def rule_driver(ctx, px):
            "" if ok else "a final line without terminator is never written", g.node.lineno)
     if ok:
         c = flush[0]
-        # first element of the tuple derives from the carried buffer; second is the empty terminator
-        a0 = c.args[0]
-        srcs = {n.id for n in ast.walk(a0) if isinstance(n, ast.Name)}
-        # trace one assignment step
-        defs = {}
-        for st in after:
-            if isinstance(st, ast.Assign) and isinstance(st.targets[0], ast.Name):
-                defs[st.targets[0].id] = ast.unparse(st.value)
-        derived = any("getvalue" in defs.get(s, "") for s in srcs) or "getvalue" in ast.unparse(a0)
-        ctx.ob(R, g.module.rel, f"{g.short} :: flushed text is the carried buffer", derived,
-               "" if derived else f"flush writes {ast.unparse(a0)}", c.lineno)
+        # first element of the tuple derives from the carried text; second is the empty terminator
+        a0 = pyfront.subst_locals(g.node, c.args[0])
+        txt = ast.unparse(a0)
+        derived = any((f"{cn}.getvalue()" in txt) if kind == "sio" else re.search(rf"\b{re.escape(cn)}\b", txt) is not None for cn, kind in model["carriers"].items())
+        ctx.ob(R, g.module.rel, f"{g.short} :: flushed text is the carried text", derived,
+               "" if derived else f"flush writes {txt}", c.lineno)
+        empty_term = isinstance(a0, ast.Tuple) and len(a0.elts) == 2 and isinstance(a0.elts[1], ast.Constant) and a0.elts[1].value == ""
+        ctx.ob(R, g.module.rel, f"{g.short} :: the flushed remainder has no terminator", empty_term, "" if empty_term else f"flush writes {txt}", c.lineno)
         gd = pyfront.guards_of(g.node, c) or ()
-        terms = pyfront.guard_terms(gd)
-        ok2 = all(("len(" in e and "> 0" in e and p) or (e in srcs and p) or (e.startswith("len(") and p) for e, p in terms)
+        terms = pyfront.guard_terms([(pyfront.subst_locals(g.node, t), p_) for t, p_ in gd])
+        carried_txt = ast.unparse(a0.elts[0]) if isinstance(a0, ast.Tuple) and a0.elts else txt
+
+        def nonempty_test(e, pol):
+            e = e.replace(" ", "")
+            ct = carried_txt.replace(" ", "")
+            return (pol and e in (ct, f"len({ct})>0", f"len({ct})", f"len({ct})!=0", f"0<len({ct})", f"{ct}!=''", f"len({ct})>=1")) or \
+                (not pol and e in (f"not{ct}", f"len({ct})==0", f"{ct}==''", f"0==len({ct})", f"len({ct})<1"))
+        ok2 = all(nonempty_test(e, p_) for e, p_ in terms)
         ctx.ob(R, g.module.rel, f"{g.short} :: flush happens whenever the remainder is non-empty", ok2,
                "" if ok2 else f"flush guarded by {terms}", c.lineno)
-    # all text before a match and the text after the last match are carried: two writes into the buffer
-    carried = [c for c in _calls(cl, "write") if "line_buffer" in ast.unparse(c.func.value) or "buffer" in ast.unparse(c.func.value)]
-    ctx.ob(R, g.module.rel, f"{g.short} :: text before a terminator and after the last one is carried", len(carried) >= 2,
-           "" if len(carried) >= 2 else f"{len(carried)} buffer writes", cl.lineno)
+    # no text of a chunk is dropped: what is not part of a completed line is carried to the next chunk
+    if model["scan"] == "chunk":
+        n_upd = len(model["carry_updates"])
+        ctx.ob(R, g.module.rel, f"{g.short} :: text before a terminator and after the last one is carried", n_upd >= 2,
+               "" if n_upd >= 2 else f"{n_upd} update(s) of the carried text from the chunk: the text after the last terminator (or before the first) is lost", cl.lineno)
+    else:
+        n_upd = len(model["carry_updates"])
+        ctx.ob(R, g.module.rel, f"{g.short} :: the unterminated tail of (carried text + chunk) is carried on", n_upd >= 1,
+               "" if n_upd >= 1 else "the carried text is never renewed inside the chunk loop", cl.lineno)
 
     # _generate_code: no processors -> parts written verbatim
     gc = px.func(GEN_MOD, "CodeGenerator._generate_code")
@@ -117,49 +238,54 @@ def rule_straddle(ctx, px):
     R = "R-C15-STRADDLE"
     ctx.rule(
         R,
-        "if the terminator pattern can match more than one character a terminator can straddle a chunk boundary: the "
-        "splitter must then search the carried buffer together with the chunk, hold back a terminator prefix, or "
-        "re-join a terminator whose first character ended the carried text",
+        "the splitter recognises exactly LF and CRLF as line terminators (regex language / the semantics of the str method used); "
+        "a two-character terminator can straddle a chunk boundary, so the splitter must scan the carried text together with the "
+        "chunk, or re-join a terminator whose first character ended the carried text",
     )
     g = px.func(GEN_MOD, "CodeGenerator._generate_with_line_buffer")
-    pats = []
+    chunk_loops = [n for n in g.node.body if isinstance(n, ast.For)]
+    if len(chunk_loops) != 1:
+        raise AnalysisError("anchor missing: the chunk loop of _generate_with_line_buffer")
+    cl = chunk_loops[0]
+    model = driver_model(g, cl)
+    recs = model["recognisers"]
+    if not recs:
+        raise AnalysisError("anchor missing: no terminator recogniser (regex search / splitlines / split) in _generate_with_line_buffer")
+    chunk_var = model["chunk"]
+    # (1) terminator language
+    lang = set()
+    for kind, pat, c, scanned in recs:
+        if kind == "regex":
+            L = _regex_language(pat)
+            ok = L is not None and L == {"\n", "\r\n"}
+            ctx.ob(R, g.module.rel, f"{g.short} :: terminator pattern {pat!r} matches exactly LF and CRLF", ok,
+                   "" if ok else f"the pattern matches {sorted(L) if L is not None else 'an unbounded / unrecognised set'}: other text is treated as a line terminator, "
+                   "or CRLF is not recognised as one terminator", c.lineno)
+            lang |= (L or set())
+        elif kind == "splitlines":
+            ctx.ob(R, g.module.rel, f"{g.short} :: lines are cut with str.splitlines", False,
+                   "str.splitlines also cuts at a lone CR, VT, FF, FS/GS/RS, NEL, U+2028 and U+2029: text before such a character is handed to the "
+                   "processors as a line of its own (trailing whitespace and the separator itself are removed from the middle of a line)", c.lineno)
+            lang |= {"\n", "\r\n"}
+        else:
+            lang.add(pat)
+    ctx.unit("terminator_language", sorted(lang))
+    width = max((len(x) for x in lang), default=1)
+    if "\r\n" not in lang:
+        # only LF is cut: CRLF must be re-assembled for every line (the CR would otherwise be trimmed as trailing whitespace)
+        width = 2
+    scans_chunk_only = model["scan"] == "chunk"
+    first_chars = {x[0] for x in lang if len(x) > 1} or {"\r"}
+    # names holding the carried text: <sio>.getvalue() values and str carriers
+    carried = {cn for cn, k in model["carriers"].items() if k == "str"}
     for n in ast.walk(g.node):
-        if isinstance(n, ast.Assign) and isinstance(n.value, ast.Call) and ast.unparse(n.value.func) in ("re.compile",) \
-                and n.value.args and isinstance(n.value.args[0], ast.Constant):
-            pats.append((n, n.value.args[0].value, ast.unparse(n.targets[0])))
-    if not pats:
-        raise AnalysisError("anchor missing: terminator pattern in _generate_with_line_buffer")
-    node, pat, var = pats[0]
-    lo, hi = _regex_width(pat)
-    ctx.unit("terminator_pattern", pat)
-    ctx.unit("terminator_width", [lo, hi])
-    if hi <= 1:
-        ctx.ob(R, g.module.rel, f"{g.short} :: terminator pattern {pat!r} has width {hi}", True, "single-character terminators cannot straddle", node.lineno)
-        return
-    # what does .search scan?
-    chunk_var = None
-    for n in g.node.body:
-        if isinstance(n, ast.For):
-            chunk_var = ast.unparse(n.target)
-    searches = [c for c in ast.walk(g.node) if isinstance(c, ast.Call) and isinstance(c.func, ast.Attribute)
-                and c.func.attr in ("search", "finditer", "split", "match") and ast.unparse(c.func.value) == var]
-    scans_chunk_only = all(c.args and ast.unparse(c.args[0]) == chunk_var for c in searches) and bool(searches)
-    # accepted repairs: a test on the end of the carried text / chunk for the terminator's first character
-    first_chars = set()
-    for alt in re.split(r"\|", pat):
-        try:
-            s = bytes(alt, "utf-8").decode("unicode_escape")
-        except Exception:
-            s = alt
-        if len(s) > 1:
-            first_chars.add(s[0])
-    # names holding the carried text: assigned from <buffer>.getvalue()
-    carried = set()
-    for n in ast.walk(g.node):
-        if isinstance(n, ast.Assign) and isinstance(n.targets[0], ast.Name) and "getvalue()" in ast.unparse(n.value):
-            carried.add(n.targets[0].id)
-    repairs = []
-    weak = []
+        if isinstance(n, ast.Assign):
+            tg, vals = n.targets[0], n.value
+            pairs = list(zip(tg.elts, vals.elts)) if isinstance(tg, ast.Tuple) and isinstance(vals, ast.Tuple) and len(tg.elts) == len(vals.elts) else [(tg, vals)]
+            for t_, v_ in pairs:
+                if isinstance(t_, ast.Name) and "getvalue()" in ast.unparse(v_):
+                    carried.add(t_.id)
+    repairs, weak = [], []
     for n in ast.walk(g.node):
         subj = None
         if isinstance(n, ast.Call) and isinstance(n.func, ast.Attribute) and n.func.attr == "endswith" and n.args \
@@ -184,172 +310,253 @@ def rule_straddle(ctx, px):
                            for e, p in terms)
             keeps = isinstance(stmt, ast.Assign) and isinstance(stmt.value, ast.BoolOp)
             (repairs if (nonempty or keeps) else weak).append(n)
-    ok = (not scans_chunk_only) or bool(repairs)
-    why = ("searches more than the bare chunk" if not scans_chunk_only else
-           ("re-joins / holds back a split terminator" if repairs else
+    ok = width <= 1 or (not scans_chunk_only) or bool(repairs)
+    why = ("single-character terminators cannot straddle" if width <= 1 else
+           "the carried text is scanned together with the chunk" if not scans_chunk_only else
+           ("re-joins a split terminator" if repairs else
             ("a per-chunk flag remembers a trailing terminator prefix but is overwritten by every chunk, including empty ones: "
              "a terminator cut as [..\\r] [] [\\n..] is not re-joined" if weak else
-            f"pattern {pat!r} can match {hi} characters but only the current chunk is searched: a terminator cut "
-            "between two chunks is seen as a different terminator (CRLF becomes LF after whitespace trimming)")))
-    ctx.ob(R, g.module.rel, f"{g.short} :: multi-character terminator {pat!r} vs chunk boundaries", ok, why, node.lineno)
+             "a two-character terminator is possible but only the current chunk is searched: a terminator cut "
+             "between two chunks is seen as a different terminator (CRLF becomes LF after whitespace trimming)")))
+    ctx.ob(R, g.module.rel, f"{g.short} :: two-character terminator vs chunk boundaries", ok, why, cl.lineno)
+
+
+def _split_ifexp(body):
+    """`x = a if c else b` / `return a if c else b` as if/else statements, so that paths can be enumerated over them"""
+    out = []
+    for st in body:
+        if isinstance(st, (ast.Assign, ast.Return)) and isinstance(st.value, ast.IfExp):
+            ie = st.value
+            mk = (lambda v: ast.Assign(targets=st.targets, value=v)) if isinstance(st, ast.Assign) else (lambda v: ast.Return(value=v))
+            node = ast.If(test=ie.test, body=[ast.copy_location(mk(ie.body), st)], orelse=[ast.copy_location(mk(ie.orelse), st)])
+            out.append(ast.fix_missing_locations(ast.copy_location(node, st)))
+        elif isinstance(st, ast.If):
+            node = ast.If(test=st.test, body=_split_ifexp(st.body), orelse=_split_ifexp(st.orelse))
+            out.append(ast.copy_location(node, st))
+        else:
+            out.append(st)
+    return out
+
+
+def _tuple_aliases(fn, p):
+    """names for the two components of the (line, terminator) argument: p[0] / p[1], `line, end = p`, `line = p[0]`"""
+    line, term = {f"{p}[0]"}, {f"{p}[1]"}
+    for n in ast.walk(fn):
+        if isinstance(n, ast.Assign) and len(n.targets) == 1:
+            t, v = n.targets[0], ast.unparse(n.value)
+            if isinstance(t, ast.Tuple) and len(t.elts) == 2 and v == p and all(isinstance(e, ast.Name) for e in t.elts):
+                line.add(t.elts[0].id)
+                term.add(t.elts[1].id)
+            elif isinstance(t, ast.Name) and v in line:
+                line.add(t.id)
+            elif isinstance(t, ast.Name) and v in term:
+                term.add(t.id)
+    return line, term
+
+
+def _emptiness(e: str, pol: bool, line_alias):
+    """'empty' / 'nonempty' / None: what a branch condition says about the line component"""
+    e = e.replace(" ", "")
+    for la in line_alias:
+        la = la.replace(" ", "")
+        if e in (f"len({la})==0", f"0==len({la})", f"not{la}", f"{la}==''", f"''=={la}", f"notlen({la})", f"len({la})<1", f"1>len({la})"):
+            return "empty" if pol else "nonempty"
+        if e in (la, f"len({la})", f"len({la})>0", f"0<len({la})", f"len({la})!=0", f"0!=len({la})", f"{la}!=''", f"''!={la}", f"len({la})>=1", f"1<=len({la})"):
+            return "nonempty" if pol else "empty"
+    return None
 
 
 def rule_pp_contract(ctx, px):
     R = "R-C15-PP-CONTRACT"
     ctx.rule(
         R,
-        "TrimTrailingWhitespace returns the input terminator component on every path and a prefix of the input line; "
-        "LimitEmptyLines returns its argument unchanged or the elision tuple, the latter only where the current line "
-        "is empty (count > N with count zeroed by every non-empty line, N >= 0)",
+        "decided per execution path of the two built-in line processors: TrimTrailingWhitespace returns the input terminator on "
+        "every path and as line either the input cut at the match of an end-anchored all-whitespace pattern / str.rstrip() without "
+        "argument, or the unchanged argument only where no trailing whitespace exists; LimitEmptyLines zeroes its counter and returns "
+        "the argument for every non-empty line, counts every empty line once and elides it exactly when the count exceeds N",
     )
-    t = px.cls(PP_MOD, "TrimTrailingWhitespace").methods["__call__"]
+    tc = px.cls(PP_MOD, "TrimTrailingWhitespace")
+    t = tc.methods["__call__"]
     p = t.node.args.args[1].arg
-    rets = [r for r in ast.walk(t.node) if isinstance(r, ast.Return)]
-    if not rets:
-        raise AnalysisError("anchor missing: returns of TrimTrailingWhitespace.__call__")
-    # the pattern that finds the cut must be anchored at the end and match whitespace only
-    init = px.cls(PP_MOD, "TrimTrailingWhitespace").methods["__init__"]
-    pat = None
-    for n in ast.walk(init.node):
-        if isinstance(n, ast.Call) and ast.unparse(n.func) == "re.compile" and n.args and isinstance(n.args[0], ast.Constant):
-            pat = n.args[0].value
-    # locals aliasing the line component / the match object
-    line_alias = {f"{p}[0]"}
-    match_vars = set()
-    for n in ast.walk(t.node):
-        if isinstance(n, ast.Assign) and isinstance(n.targets[0], ast.Name):
-            v = ast.unparse(n.value)
-            if v in line_alias:
-                line_alias.add(n.targets[0].id)
+    line_alias, term_alias = _tuple_aliases(t.node, p)
+    # the cut pattern, wherever it is compiled (constructor, class body, module)
+    pats = {}
+    for n in list(ast.walk(tc.node)) + list(t.module.tree.body):
+        if isinstance(n, ast.Assign) and isinstance(n.value, ast.Call) and ast.unparse(n.value.func) == "re.compile" and n.value.args \
+                and isinstance(n.value.args[0], ast.Constant):
+            pats[ast.unparse(n.targets[0])] = (n.value.args[0].value, n.lineno)
+    match_vars = {}
     for n in ast.walk(t.node):
         if isinstance(n, ast.Assign) and isinstance(n.targets[0], ast.Name) and isinstance(n.value, ast.Call) \
                 and isinstance(n.value.func, ast.Attribute) and n.value.func.attr == "search" and n.value.args \
                 and ast.unparse(n.value.args[0]) in line_alias:
-            match_vars.add(n.targets[0].id)
-    ret_guards = {}
-    for st, gd in pyfront.walk_guarded(t.node.body):
-        if isinstance(st, ast.Return):
-            ret_guards[id(st)] = pyfront.guard_terms(gd)
+            match_vars[n.targets[0].id] = ast.unparse(n.value.func.value)
+
+    def ws_pattern_ok(pat):
+        parsed = sre_parse.parse(pat)
+        anchored = len(parsed) >= 1 and str(parsed[-1][0]) == "AT" and "END" in str(parsed[-1][1])
+        body = parsed[:-1] if anchored else parsed
+        only_ws = len(body) >= 1 and all(str(op) in ("MAX_REPEAT", "MIN_REPEAT") and all(
+            str(o2) == "IN" and all(str(x[0]) == "CATEGORY" and "SPACE" in str(x[1]) and "NOT" not in str(x[1]) for x in a2)
+            for o2, a2 in av[2]) for op, av in body)
+        return anchored and only_ws
+
+    for mv, pv in match_vars.items():
+        if pv not in pats:
+            raise AnalysisError(f"anchor missing: pattern behind {pv} in TrimTrailingWhitespace")
+        pat, ln = pats[pv]
+        ok = ws_pattern_ok(pat)
+        ctx.ob(R, t.module.rel, f"{t.short} :: cut pattern {pat!r} is end-anchored whitespace", ok,
+               "" if ok else "pattern can remove non-whitespace or interior text, or leaves some trailing whitespace", ln)
 
     def implies_no_trailing_ws(terms):
-        """accepted reasons for returning the argument unchanged"""
         for e, pol in terms:
             for mv in match_vars:
                 if (e == f"{mv} is not None" and not pol) or (e == f"{mv} is None" and pol) or (e == mv and not pol):
                     return True
+            if _emptiness(e, pol, line_alias) == "empty":
+                return True
             for la in line_alias:
-                if (e in (f"len({la}) == 0", f"not {la}", f"{la} == ''") and pol) or (e in (f"len({la}) > 0", la) and not pol):
-                    return True
                 if (e == f"{la}[-1].isspace()" and not pol) or (e == f"not {la}[-1].isspace()" and pol):
                     return True
         return False
 
-    for i, r in enumerate(rets):
+    n_ret = 0
+    for path in pyfront.enumerate_paths(_split_ifexp(t.node.body)):
+        if path.outcome != "return":
+            continue
+        r = path.stmts[-1]
+        n_ret += 1
+        terms = pyfront.guard_terms(path.conds)
         v = r.value
         txt = ast.unparse(v) if v is not None else "None"
-        if txt == p:
-            terms = ret_guards.get(id(r), [])
-            # an `a or b` early-out: every disjunct must be an accepted reason
-            ok_same = False
-            for e, pol in terms:
+        label = f"{t.short} :: path to `return {txt[:50]}` under {[(e[:30], pl) for e, pl in terms]}"
+        whole = txt == p or (isinstance(v, ast.Tuple) and len(v.elts) == 2 and ast.unparse(v.elts[0]) in line_alias and ast.unparse(v.elts[1]) in term_alias)
+        if whole:
+            ok_same = implies_no_trailing_ws(terms)
+            for e, pol in terms:   # an `a or b` early-out: every disjunct must be an accepted reason
                 try:
                     node = ast.parse(e, mode="eval").body
                 except SyntaxError:
                     continue
                 if pol and isinstance(node, ast.BoolOp) and isinstance(node.op, ast.Or):
                     ok_same = ok_same or all(implies_no_trailing_ws([(ast.unparse(d), True)]) for d in node.values)
-            ok_same = ok_same or implies_no_trailing_ws(terms)
-            ctx.ob(R, t.module.rel, f"{t.short} :: return #{i + 1} is the argument itself, only when the line has no trailing whitespace", ok_same,
+            ctx.ob(R, t.module.rel, label + " returns the argument itself only when the line has no trailing whitespace", ok_same,
                    "no match of the end-anchored whitespace pattern / empty line" if ok_same else
-                   f"the line is returned untrimmed under {terms}, which does not imply that it has no trailing whitespace in the "
+                   "the line is returned untrimmed on a path that does not imply that it has no trailing whitespace in the "
                    "sense of the trim pattern (\\s is Unicode-aware)", r.lineno)
             continue
-        ok = isinstance(v, ast.Tuple) and len(v.elts) == 2 and ast.unparse(v.elts[1]) == f"{p}[1]"
-        ctx.ob(R, t.module.rel, f"{t.short} :: return #{i + 1} keeps the terminator component", ok,
-               "" if ok else f"returns {txt}", r.lineno)
+        ok = isinstance(v, ast.Tuple) and len(v.elts) == 2 and ast.unparse(v.elts[1]) in term_alias
+        ctx.ob(R, t.module.rel, label + " keeps the terminator component", ok, "" if ok else f"returns {txt}", r.lineno)
         if isinstance(v, ast.Tuple) and len(v.elts) == 2:
-            e0 = pyfront.subst_locals(t.node, v.elts[0])    # `line = p[0]` hoisted into a local is the same expression
+            e0 = v.elts[0]
             pref = False
-            if isinstance(e0, ast.Subscript) and ast.unparse(e0.value) == f"{p}[0]" and isinstance(e0.slice, ast.Slice) \
-                    and e0.slice.lower is None and e0.slice.step is None:
-                pref = True
-            if isinstance(e0, ast.Call) and isinstance(e0.func, ast.Attribute) and e0.func.attr == "rstrip" \
-                    and ast.unparse(e0.func.value) == f"{p}[0]":
-                pref = True
-            ctx.ob(R, t.module.rel, f"{t.short} :: return #{i + 1} line component is a prefix of the input line", pref,
+            if isinstance(e0, ast.Subscript) and ast.unparse(e0.value) in line_alias and isinstance(e0.slice, ast.Slice) \
+                    and e0.slice.lower is None and e0.slice.step is None and e0.slice.upper is not None:
+                up = ast.unparse(e0.slice.upper)
+                # cut at the start of the whitespace match, on a path where the match exists
+                pref = any(up == f"{mv}.start()" for mv in match_vars) and any(
+                    (e == f"{mv} is not None" and pol) or (e == f"{mv} is None" and not pol) or (e == mv and pol) for e, pol in terms for mv in match_vars)
+            if isinstance(e0, ast.Call) and isinstance(e0.func, ast.Attribute) and e0.func.attr == "rstrip" and not e0.args and not e0.keywords \
+                    and ast.unparse(e0.func.value) in line_alias:
+                pref = True    # str.rstrip() == removal of the longest all-whitespace (str.isspace) suffix == \s+$ for str patterns
+            ctx.ob(R, t.module.rel, label + " line component is the input line without its trailing whitespace", pref,
                    "" if pref else f"line component is {ast.unparse(e0)}", r.lineno)
-    if pat is not None:
-        try:
-            parsed = sre_parse.parse(pat)
-            anchored = len(parsed) >= 1 and str(parsed[-1][0]) == "AT" and "END" in str(parsed[-1][1])
-            body = parsed[:-1] if anchored else parsed
-            only_ws = all(str(op) in ("MAX_REPEAT", "MIN_REPEAT") and all(
-                str(o2) == "IN" and all(str(x[0]) == "CATEGORY" and "SPACE" in str(x[1]) and "NOT" not in str(x[1]) for x in a2)
-                for o2, a2 in av[2]) for op, av in body)
-            ctx.ob(R, t.module.rel, f"{t.short} :: cut pattern {pat!r} is end-anchored whitespace", anchored and only_ws,
-                   "" if anchored and only_ws else "pattern can remove non-whitespace or interior text", init.node.lineno)
-        except Exception as e:  # pragma: no cover
-            raise AnalysisError(f"cannot parse trim pattern {pat!r}: {e}")
+    if not n_ret:
+        raise AnalysisError("anchor missing: returns of TrimTrailingWhitespace.__call__")
 
-    le = px.cls(PP_MOD, "LimitEmptyLines").methods["__call__"]
+    # ---- LimitEmptyLines, path by path
+    lc = px.cls(PP_MOD, "LimitEmptyLines")
+    le = lc.methods["__call__"]
     p = le.node.args.args[1].arg
-    # counter discipline
-    cnt = None
-    disc_ok = False
-    empties_le = (f"len({p}[0]) == 0", f"0 == len({p}[0])", f"not {p}[0]", f"{p}[0] == ''", f"'' == {p}[0]", f"not len({p}[0])")
-    for st in le.node.body:
-        # `self._count = (self._count + 1) if <empty line> else 0` - the conditional-expression form of the same discipline
-        if isinstance(st, ast.Assign) and len(st.targets) == 1 and isinstance(st.value, ast.IfExp):
-            ie = st.value
-            tst, a_, b_ = pyfront.subst_locals(le.node, ie.test), ie.body, ie.orelse
-            if isinstance(tst, ast.UnaryOp) and isinstance(tst.op, ast.Not) and ast.unparse(tst) not in empties_le:
-                tst, a_, b_ = tst.operand, b_, a_
-            tg = ast.unparse(st.targets[0])
-            if ast.unparse(tst) in empties_le and ast.unparse(b_) == "0" and ast.unparse(a_).replace("(", "").replace(")", "") in (f"{tg} + 1", f"1 + {tg}"):
-                cnt = tg
-                disc_ok = True
-        if isinstance(st, ast.If) and st.orelse:
-            tnode, body_, orelse_ = st.test, st.body, st.orelse
-            empties = (f"len({p}[0]) == 0", f"0 == len({p}[0])", f"not {p}[0]", f"{p}[0] == ''", f"'' == {p}[0]", f"not len({p}[0])")
-            if ast.unparse(tnode) not in empties and isinstance(tnode, ast.UnaryOp) and isinstance(tnode.op, ast.Not):
-                tnode, body_, orelse_ = tnode.operand, st.orelse, st.body      # `if not <empty>: zero else: count`
-            elif ast.unparse(tnode) in (f"len({p}[0]) != 0", f"len({p}[0]) > 0", f"0 != len({p}[0])", f"0 < len({p}[0])", f"{p}[0]"):
-                tnode, body_, orelse_ = ast.parse(f"len({p}[0]) == 0", mode="eval").body, st.orelse, st.body
-            test = ast.unparse(tnode)
-            empty_test = test in empties
-            inc = [s for s in body_ if isinstance(s, ast.AugAssign) and isinstance(s.op, ast.Add) and ast.unparse(s.value) == "1"]
-            zero = [s for s in orelse_ if isinstance(s, ast.Assign) and ast.unparse(s.value) == "0"]
-            if empty_test and len(inc) == 1 and len(zero) == 1 and ast.unparse(inc[0].target) == ast.unparse(zero[0].targets[0]) \
-                    and len(st.body) == 1 and len(st.orelse) == 1:
-                cnt = ast.unparse(inc[0].target)
-                disc_ok = True
-    ctx.ob(R, le.module.rel, f"{le.short} :: counter incremented by empty lines and zeroed by every non-empty line", disc_ok,
-           "" if disc_ok else "counter discipline changed", le.node.lineno)
-    rets = []
-    for st, gd in pyfront.walk_guarded(le.node.body):
-        if isinstance(st, ast.Return):
-            rets.append((st, pyfront.guard_terms(gd)))
-    for i, (r, terms) in enumerate(rets):
-        txt = ast.unparse(r.value) if r.value is not None else "None"
-        if txt == p:
-            ctx.ob(R, le.module.rel, f"{le.short} :: return #{i + 1} is the argument unchanged", True, "", r.lineno)
-        elif txt in ("('', '')", '("", "")'):
-            strict = cnt is not None and any(
-                (e in (f"{cnt} > self._max_empty_lines", f"self._max_empty_lines < {cnt}") and pol)
-                or (e in (f"{cnt} <= self._max_empty_lines", f"self._max_empty_lines >= {cnt}") and not pol)
-                for e, pol in terms)
-            ctx.ob(R, le.module.rel, f"{le.short} :: elision only when count > N (so only for an empty line, N >= 0)", strict,
-                   "" if strict else f"elision guarded by {terms}: a non-empty line (count == 0) can be removed when N == 0, "
-                   "or fewer than N empty lines survive", r.lineno)
-        else:
-            ctx.ob(R, le.module.rel, f"{le.short} :: return #{i + 1}", False, f"returns {txt}: alters a line", r.lineno)
-    if len(rets) < 2:
-        raise AnalysisError("anchor missing: returns of LimitEmptyLines.__call__")
-    # N stored unmodified
-    init = px.cls(PP_MOD, "LimitEmptyLines").methods["__init__"]
-    asg = [n for n in ast.walk(init.node) if isinstance(n, ast.Assign) and ast.unparse(n.targets[0]) == "self._max_empty_lines"]
-    ok = len(asg) == 1 and ast.unparse(asg[0].value) == init.node.args.args[1].arg
+    line_alias, term_alias = _tuple_aliases(le.node, p)
+    init = lc.methods["__init__"]
+    nparam = init.node.args.args[1].arg
+    asg = [n for n in ast.walk(init.node) if isinstance(n, ast.Assign) and ast.unparse(pyfront.subst_locals(init.node, n.value)) == nparam
+           and ast.unparse(n.targets[0]).startswith("self.")]
+    ok = len(asg) == 1
     ctx.ob(R, le.module.rel, "LimitEmptyLines.__init__ :: N stored unmodified", ok, "", init.node.lineno)
+    nattr = ast.unparse(asg[0].targets[0]) if ok else "self._max_empty_lines"
+    # the counter: the self attribute that is incremented
+    cnt = None
+    for n in ast.walk(le.node):
+        if isinstance(n, ast.AugAssign) and isinstance(n.op, ast.Add) and ast.unparse(n.value) == "1" and ast.unparse(n.target).startswith("self."):
+            cnt = ast.unparse(n.target)
+        if isinstance(n, ast.Assign) and ast.unparse(n.targets[0]).startswith("self."):
+            tg = ast.unparse(n.targets[0])
+            for x in ast.walk(n.value):
+                if isinstance(x, ast.BinOp) and isinstance(x.op, ast.Add) and {ast.unparse(x.left), ast.unparse(x.right)} == {tg, "1"}:
+                    cnt = tg
+    if cnt is None:
+        raise AnalysisError("anchor missing: the empty-line counter of LimitEmptyLines.__call__")
+    n_paths = 0
+    for path in pyfront.enumerate_paths(_split_ifexp(le.node.body)):
+        if path.outcome != "return":
+            if path.outcome == "fall":
+                ctx.ob(R, le.module.rel, f"{le.short} :: every path returns a tuple", False, "a path falls off the end (returns None)", le.node.lineno)
+            continue
+        n_paths += 1
+        r = path.stmts[-1]
+        # replay the path: counter operations and the comparisons of the counter with N, in order
+        conds = list(path.conds)
+        ci = 0
+        incs = zeros = 0
+        kind = None
+        verdicts = []       # ('gt', True/False) for count > N decided after the increment
+        for st in path.stmts:
+            if isinstance(st, ast.If):
+                test, pol = conds[ci]
+                ci += 1
+                for e, pl in pyfront.guard_terms([(test, pol)]):
+                    k = _emptiness(e, pl, line_alias)
+                    if k is not None:
+                        kind = k if kind in (None, k) else "contradiction"
+                    e2 = e.replace(" ", "")
+                    c_, n_ = cnt.replace(" ", ""), nattr.replace(" ", "")
+                    if e2 in (f"{c_}>{n_}", f"{n_}<{c_}"):
+                        verdicts.append(("gt", pl, incs, zeros))
+                    elif e2 in (f"{c_}<={n_}", f"{n_}>={c_}"):
+                        verdicts.append(("gt", not pl, incs, zeros))
+                    elif c_ in e2 and ("<" in e2 or ">" in e2 or "==" in e2):
+                        verdicts.append(("other:" + e, pl, incs, zeros))
+            elif isinstance(st, ast.AugAssign) and ast.unparse(st.target) == cnt:
+                incs += 1
+            elif isinstance(st, ast.Assign) and ast.unparse(st.targets[0]) == cnt:
+                if ast.unparse(st.value) == "0":
+                    zeros += 1
+                    incs = 0
+                else:
+                    incs += 1
+        txt = ast.unparse(r.value) if r.value is not None else "None"
+        is_arg = txt == p or (isinstance(r.value, ast.Tuple) and len(r.value.elts) == 2 and ast.unparse(r.value.elts[0]) in line_alias
+                              and ast.unparse(r.value.elts[1]) in term_alias)
+        is_elide = txt in ("('', '')", '("", "")')
+        shown = [(ast.unparse(t_)[:40], pl) for t_, pl in path.conds]
+        label = f"{le.short} :: path {shown} -> return {txt}"
+        if kind == "contradiction":
+            continue
+        if not (is_arg or is_elide):
+            ctx.ob(R, le.module.rel, label, False, f"returns {txt}: alters a line", r.lineno)
+            continue
+        if kind == "nonempty":
+            # infeasible combination: a zeroed counter cannot exceed N >= 0
+            if any(v[0] == "gt" and v[1] and v[3] >= 1 and v[2] == 0 for v in verdicts):
+                continue
+            ok = zeros >= 1 and incs == 0 and is_arg
+            ctx.ob(R, le.module.rel, label, ok, "non-empty line: counter zeroed, line passed through" if ok else
+                   "a non-empty line must zero the counter and be returned unchanged", r.lineno)
+        elif kind == "empty":
+            gt = [v for v in verdicts if v[0] == "gt"]
+            other = [v for v in verdicts if v[0] != "gt"]
+            ok = incs == 1 and zeros == 0 and not other and len(gt) == 1 and gt[0][2] == 1 and (is_elide == gt[0][1])
+            ctx.ob(R, le.module.rel, label, ok, "empty line: counted once, elided exactly when count > N" if ok else
+                   f"an empty line must be counted once and then elided exactly when the count exceeds N (increments {incs}, zeroings {zeros}, "
+                   f"comparisons {[(v[0], v[1]) for v in verdicts]}): otherwise more than N empty lines survive, fewer than N survive, or a "
+                   "non-empty line can be removed", r.lineno)
+        else:
+            ctx.ob(R, le.module.rel, label, False, "the path does not distinguish empty from non-empty lines", r.lineno)
+    if n_paths < 2:
+        raise AnalysisError("anchor missing: return paths of LimitEmptyLines.__call__")
 
 
 def rule_copy(ctx, px):
